@@ -789,3 +789,70 @@ def wrap_tree_rule(run, ctx):
         run.violation(fam, label, "shape", H.where(fn), "wrap_tree must be Concat[(?s:.)*? , Group(user expr)] with the remaining fields taken from the parsed tree (leftmost search, group 0 = overall match, no extra group before the user's groups), found %s" % c[:240])
     else:
         run.ok(fam, label, H.where(fn), 1, "Concat[lazy (?s:.)*, Group(raw)]: exactly one group before the user's, in front position")
+
+
+SLOT_OPERANDS = {"Save": [0], "Save0": [0], "Restore": [0], "Backref": [0],
+                 "RepeatGr": ["repeat"], "RepeatNg": ["repeat"], "RepeatEpsilonGr": ["repeat", "check"], "RepeatEpsilonNg": ["repeat", "check"]}
+
+
+def slot_operands(run, ctx):
+    """Every slot operand the compiler puts into an instruction is 2g / 2g+1 of a group number, a fresh
+    newsave() slot, or the literal 0 of \\K (supports the audited invariant `slot < saves.len()` of State::get)."""
+    fam, label = "SLOT", "operands"
+    n = 0
+    for path, fn in sorted(ctx.facts.hir.items()):
+        sp = strip_generics(path)
+        if not sp.startswith("compile::"):
+            continue
+        lets = {}
+        for nd in H.walk(fn["body"]):
+            if nd.get("k") == "Let" and nd["pat"].get("k") == "Binding" and nd.get("init") is not None:
+                lets.setdefault(nd["pat"]["name"], H.canon(nd["init"]))
+        # pattern-bound group numbers of the Expr arms
+        groups = set()
+        for nd in H.walk(fn["body"]):
+            if nd.get("k") == "Match":
+                for arm in nd["arms"]:
+                    pc = H.pat_canon(arm["pat"])
+                    m = re.match(r"^Expr::(Backref|BackrefExistsCondition)\((\w+)\)$", pc)
+                    if m:
+                        groups.add(m.group(2))
+        for nd in H.walk(fn["body"]):
+            var = None
+            ops = []
+            if nd.get("k") == "Call":
+                f = H.peel(nd["f"])
+                if f.get("adt", "").endswith("vm::Insn") and f.get("variant") in SLOT_OPERANDS:
+                    var = f["variant"]
+                    ops = [(i, nd["args"][i]) for i in SLOT_OPERANDS[var] if isinstance(i, int) and i < len(nd["args"])]
+            elif nd.get("k") == "Struct" and nd.get("adt", "").endswith("vm::Insn") and nd.get("variant") in SLOT_OPERANDS:
+                var = nd["variant"]
+                fl = {f_["name"]: f_["e"] for f_ in nd["fields"]}
+                ops = [(k_, fl[k_]) for k_ in SLOT_OPERANDS[var] if k_ in fl]
+            if var is None:
+                continue
+            for role, e in ops:
+                n += 1
+                c = H.subst_lets(H.canon(e), lets)
+                ok = False
+                why = ""
+                if c == "self.b.newsave()":
+                    ok = True
+                elif c == "0" and var == "Save":
+                    ok = True
+                else:
+                    m = re.match(r"^\(2 \* (.+)\)$", c) or re.match(r"^\(1 \+ \(2 \* (.+)\)\)$", c) or re.match(r"^\(\(2 \* (.+)\) \+ 1\)$", c)
+                    if m:
+                        g = m.group(1)
+                        INFO = [p_.get("name") for p_ in fn["params"] if "Info" in p_.get("ty", "")]
+                        if g in groups or any(g == "%s.start_group" % i_ for i_ in INFO):
+                            ok = True
+                        else:
+                            why = "group operand %s is neither the analysed start_group nor the referenced group of a Backref" % g
+                    else:
+                        why = "not of the form 2g / 2g+1 / newsave()"
+                if not ok:
+                    run.violation(fam, label, "%s/%s/%s" % (sp, var, c), H.where(nd),
+                                  "%s emits Insn::%s with slot operand `%s`: %s (a slot outside the save vector panics in State::get; a wrong slot aliases another group or counter)" % (sp, var, c, why))
+    run.floor(fam, label, "src/compile.rs", n, 10, "slot operands of emitted instructions")
+    run.ok(fam, label, "src/compile.rs", n, "%d slot operands: 2g / 2g+1 of a group number, fresh newsave() slots, or \\K's slot 0" % n)
